@@ -1,5 +1,6 @@
 """C17 - Range and conditional requests describe exactly the bytes delivered."""
 import calendar
+import math
 import os
 import tempfile
 import shutil
@@ -36,6 +37,15 @@ TZS = ['UTC', 'Europe/Berlin', 'CET-1CEST,M3.5.0,M10.5.0/3', 'America/New_York',
 MTIMES = [1_600_000_000, 1_580_000_000, 1_594_000_000, 1585443600, 1585443600 - 1800, 1603587600, 1603587600 + 1800,
           1583650800, 1604210400, 1586016000, 1601740800]
 IMS_DELTAS = [-86400, -3600, -3599, -1, 0, 1, 1800, 3599, 3600, 86400]
+# BOUNDARY modification times (class: values of the clock at which a number changes its nature): the epoch itself and
+# its neighbours (0 is the one instant that is falsy), instants before 1970 (negative), sub-second stamps (the code
+# compares int(st_mtime): truncation toward zero, so -0.5 and 0.5 both read 0), the ends of the first day, the 32-bit
+# limits (2038, 1901, 2106), the leap day 2000 and the turn of the century 2100 (not a leap year), Y2K.  A file system
+# that cannot store one of them (clamps it) drops that value: see C17._edge_mtimes.
+MTIMES_EDGE = [0, 1, -1, 2, 0.5, -0.5, 1.5, 0.25, -1.75, 86399, 86400, -86400, -86401, 2 ** 31 - 1, 2 ** 31, 2 ** 31 + 0.5,
+               2 ** 32 - 1, 2 ** 32, -2 ** 31, 946684799, 946684800, 951782400, 951868800, 4102444800, 4107542400,
+               1_600_000_000.75]
+IMS_DELTAS_EDGE = [-86400, -2, -1, 0, 1, 2, 3600]
 
 
 class Zone:
@@ -143,8 +153,9 @@ class C17(Check):
     level_note_extra = 'date parsing, stat and file stability are assumed'
     anchors = ['ombott/static_stream.py', 'ombott/common_helpers.py']
     rule = ('headers from the RFC 7233 grammar and near misses x file lengths 0..40 and around a patched small '
-            'streaming buffer x read schedules x If-Modified-Since before/equal/after mtime (three HTTP date formats, own zone '
-            'offsets, junk) x modification times in winter / summer / the hours of the 2020 DST switches x the process '
+            'streaming buffer x read schedules x If-Modified-Since before/equal/after mtime (three HTTP date formats, own zone offsets, junk) '
+            'x BOUNDARY modification times (the epoch and its neighbours, before 1970, sub-second stamps on both sides of 0, '
+            'the ends of the first day, 2^31 / 2^32 / -2^31, Y2K, the leap days 2000 / 2100; st_mtime_ns goes to the model, which truncates like int(st_mtime)) x modification times in winter / summer / the hours of the 2020 DST switches x the process '
             'running under TZ = UTC, Europe/Berlin, a POSIX rule string, America/New_York, Australia/Sydney, Asia/Kolkata, '
             'Europe/Dublin x GET/HEAD on real temporary files; HEAD against GET header for header; the same requests through app(environ, start_response) of an application whose handler returns static_file(...) (status, header list, body); non-trivial = header contains "bytes=" (reaches the range arithmetic)')
     assumptions = ['email.utils.parsedate_tz and os.stat are taken as given: the parsed fields are shipped to the model, which '
@@ -165,6 +176,7 @@ class C17(Check):
         self.ss = static_stream
         self.tmp = tempfile.mkdtemp(prefix='c17_', dir=os.environ.get('VERIF_TMP'))
         self.mtime = 1_600_000_000
+        self._edges = None
 
     def _teardown(self):
         shutil.rmtree(self.tmp, ignore_errors=True)
@@ -175,8 +187,23 @@ class C17(Check):
         if not os.path.exists(p):
             with open(p, 'wb') as f:
                 f.write(bytes((i * 7 + 3) % 251 for i in range(n)))
-            os.utime(p, (mtime, mtime))
+            ns = round(mtime * 10 ** 9)
+            os.utime(p, ns=(ns, ns))
+            if os.stat(p).st_mtime_ns != ns:
+                raise RuntimeError(f'the scratch file system does not keep the modification time {mtime!r}')
         return p
+
+    def _edge_mtimes(self):
+        """the boundary modification times this file system stores exactly (others are clamped by it: dropped, counted)"""
+        if getattr(self, '_edges', None) is None:
+            self._edges = []
+            for t in MTIMES_EDGE:
+                try:
+                    self._file(1, t)
+                    self._edges.append(t)
+                except (RuntimeError, OSError, OverflowError, ValueError):
+                    pass
+        return self._edges
 
     def _static(self, n, method, rng_hdr, ims_hdr, maxread, mtime=None, tz=None):
         """run the real static_file (under time zone `tz`); returns (response, chunks|bytes)"""
@@ -296,7 +323,7 @@ class C17(Check):
                 return 'wsgi-304-body', f'{what}: 304 with a body'
             return None
         if gs == 304:
-            return ('wsgi-ims-304-older', f'{what}: 304') if exp_t is not None else None
+            return ('wsgi-ims-304-older', f'{what}: 304') if exp_t is not None and exp_t < math.floor(mtime) else None
         cl = self._hget(gh, 'Content-Length')
         if not h:
             if gs != 200:
@@ -334,6 +361,8 @@ class C17(Check):
         out = []
         try:
             gfr = self.ss.get_first_range
+            edges = self._edge_mtimes()
+            st['edge_mtimes_kept_by_fs'] = len(edges)
             for _ in range(n):
                 h = gen_header(rng)
                 L = rng.choice([0, 1, 2, 3, 5, 8, 10, 11, 12, 13, 40, 100])
@@ -354,17 +383,19 @@ class C17(Check):
                 L = rng.choice([0, 1, 2, 5, 7, 8, 9, 15, 16, 17, 33])
                 method = rng.choice(['GET', 'GET', 'HEAD'])
                 h = rng.choice([None, None, '']) if rng.random() < .25 else gen_header(rng)
-                mtime = rng.choice(MTIMES)
+                edge = bool(edges) and rng.random() < .3      # a boundary modification time (epoch, pre-1970, sub-second, 2^31..)
+                mtime = rng.choice(edges) if edge else rng.choice(MTIMES)
+                base, deltas = (math.floor(mtime), IMS_DELTAS_EDGE + [-math.floor(mtime)]) if edge else (mtime, IMS_DELTAS)
                 tz = rng.choice(TZS) if rng.random() < .6 else None
                 ims = None
                 k = rng.randrange(8)
                 if k < 5:       # a date around the modification time, in one of the three HTTP date formats
-                    t = mtime + rng.choice(IMS_DELTAS)
+                    t = base + rng.choice(deltas)
                     ims = http_date(t, rng.choice([0, 0, 0, 1, 2]))
                     if rng.random() < .1:
                         ims += rng.choice(['; length=5', ' ', ';'])
                 elif k == 5:    # a date carrying its own zone offset (parsedate_tz honours it)
-                    t = mtime + rng.choice(IMS_DELTAS)
+                    t = base + rng.choice(deltas)
                     off = rng.choice([-5, 1, 2, 10])
                     ims = time.strftime('%a, %d %b %Y %H:%M:%S ', time.gmtime(t + off * 3600)) + '%+03d00' % off
                 elif k == 6:
@@ -389,14 +420,20 @@ class C17(Check):
                     body = '~' if method == 'HEAD' else hb(chunks)
                     ans = f'{sc} cl={r.headers["Content-Length"]} body={body}'
                 data = open(self._file(L, mtime), 'rb').read()
-                out.append((f'range static {hb(data)} - {1 if method == "HEAD" else 0} {opt(h, hs)} '
-                            f'{fields} {mtime} {mr}', ans,
+                if edge:        # the model is given st_mtime_ns and does the int(st_mtime) of the code itself
+                    st['edge_mtime'] = st.get('edge_mtime', 0) + 1
+                    st[f'edge_mtime_{sc}'] = st.get(f'edge_mtime_{sc}', 0) + 1
+                    op, mt = 'staticns', os.stat(self._file(L, mtime)).st_mtime_ns
+                else:
+                    op, mt = 'static', mtime
+                out.append((f'range {op} {hb(data)} - {1 if method == "HEAD" else 0} {opt(h, hs)} '
+                            f'{fields} {mt} {mr}', ans,
                             dict(kind='static', len=L, method=method, range=h, ims=ims, maxread=mr, mtime=mtime, tz=tz)))
                 if rng.random() < .5:       # the same request through app(environ, start_response)
                     wsc, wh, wc = self._wsgi(L, method, h, ims, mr, mtime, tz)
                     st['via_wsgi'] = st.get('via_wsgi', 0) + 1
-                    out.append((f'range static {hb(data)} - {1 if method == "HEAD" else 0} {opt(h, hs)} '
-                                f'{fields} {mtime} {mr}', self._wsgi_answer(method, wsc, wh, wc),
+                    out.append((f'range {op} {hb(data)} - {1 if method == "HEAD" else 0} {opt(h, hs)} '
+                                f'{fields} {mt} {mr}', self._wsgi_answer(method, wsc, wh, wc),
                                 dict(kind='static', via='wsgi', len=L, method=method, range=h, ims=ims, maxread=mr,
                                      mtime=mtime, tz=tz)))
             # the date arithmetic by itself against calendar.timegm
@@ -456,8 +493,10 @@ class C17(Check):
                 if r.body:
                     return '304-body', '304 with a body'
                 return None
-            if sc == 304:
+            if sc == 304 and exp_t < math.floor(mtime):       # older even at the one-second resolution of an HTTP date
                 return 'ims-304-older' + self._zone_class(tz), f'If-Modified-Since {where}: older than the file, answered 304'
+            if sc == 304:
+                return None
         elif sc == 304:
             return None        # a date this oracle has no independent reading of
         if not h:
@@ -544,6 +583,14 @@ class C17(Check):
                     cases.append((5, 'GET', None, http_date(mtime, 1), 4, mtime, tz))
                     cases.append((5, 'GET', None, http_date(mtime + 1800, 2), 4, mtime, tz))
                     cases.append((5, 'GET', 'bytes=0-1', http_date(mtime, 0), 4, mtime, tz))
+            # boundary modification times (epoch, before 1970, sub-second, 32-bit limits, leap days) x dates around them
+            edges = self._edge_mtimes()
+            for mtime in edges:
+                fl = math.floor(mtime)
+                for d in IMS_DELTAS_EDGE + [-fl]:          # ... and the epoch date itself against every such file
+                    for m in ('GET', 'HEAD'):
+                        cases.append((5, m, None, http_date(fl + d, 0), 4, mtime, None))
+                    cases.append((5, 'GET', 'bytes=0-1', http_date(fl + d, 2), 4, mtime, rng.choice(TZS)))
             for _ in range(n // 4):
                 L = rng.choice([0, 1, 2, 5, 7, 8, 9, 15, 16, 17, 33])
                 mtime = rng.choice(MTIMES)
@@ -567,6 +614,7 @@ class C17(Check):
                                 'bytes=5', 'bytes=', 'bytes=0-1,3-4', 'junk')]
             wcases += [(5, h, http_date(self.mtime + d), 4, None, tz) for h in (None, 'bytes=0-1') for d in (-1, 0, 3600)
                        for tz in (None, 'Europe/Berlin', 'Europe/Dublin')]
+            wcases += [(5, None, http_date(math.floor(mt) + d), 4, mt, None) for mt in edges for d in (-1, 0, 1)]
             for s in seeds:
                 if s.get('kind') == 'static':
                     wcases.append((s['len'], s['range'], s.get('ims'), s['maxread'], s.get('mtime'), s.get('tz')))
